@@ -24,7 +24,7 @@ def asan_reports(recs):
     return out
 
 
-def miri_run(jobs, per_process=40, processes=None, timeout=3600):
+def miri_run(jobs, per_process=40, processes=None, timeout=1500):
     """run jobs under `cargo +nightly miri run`; returns (records parallel to jobs, [ub reports])"""
     processes = processes or core.NCPU
     core.ensure_dirs()
